@@ -83,6 +83,15 @@ def _resized(o):
     return v[:n0][::-1] * 1.25 - 0.1
 
 
+def _edit_and_reassign_rt(o):
+    """the caller keeps the array it assigned, edits it in place and assigns the same container again"""
+    p = np.array(_toggle(o.response_times, RT), dtype=float)
+    o.response_times = p
+    o.s_a               # the spectra for p are computed and cached ...
+    p *= 1.5            # ... the caller edits its array ...
+    o.response_times = p    # ... and assigns it again
+
+
 def _toggle(cur, menu):
     return menu[1].copy() if len(cur) == len(menu[0]) else menu[0].copy()
 
@@ -135,6 +144,7 @@ def build_ops(cls):
     add('set:smooth_freq_points', 'sf', lambda o: setattr(o, 'smooth_freq_points', 6 if len(o.smooth_fa_freqs) != 6 else 7))
     if cls == 'AccSignal':
         add('set:response_times', 'rt', lambda o: setattr(o, 'response_times', _toggle(o.response_times, RT)))
+        add('set:response_times(same container, edited in place)', 'rt', _edit_and_reassign_rt)
         add('set:gen_response_spectrum(times)', 'rt', lambda o: o.gen_response_spectrum(response_times=_toggle(o.response_times, RT)))
         add('set:response_series(times)', 'rt', lambda o: o.response_series(response_times=_toggle(o.response_times, RT)))
     # explicit generator calls with non-default arguments install a user-chosen variant of one derived family: until the next
